@@ -48,6 +48,12 @@ for name in names:
     ev["applies_to_repo_head"] = True
     json.dump(ev, open(d + "/eval.json", "w"), indent=1)
     det = rc2 == 1 and viol
+    if ev.get("neutralised_by"):
+        # a later fix: commit put a second barrier behind the code this seed breaks: the property holds on the seeded tree (its own demo passes),
+        # so the check has to stay quiet - the seed now serves as a property-preserving change
+        missed += bool(det or rc2 != 0)
+        print(name, pid, "neutralised by %s: %s" % (ev["neutralised_by"], "quiet (ok)" if rc2 == 0 and not viol else "ALARM rc %d" % rc2), flush=True)
+        continue
     missed += not det
     print(name, pid, "detected" if det else "MISSED (rc %d)" % rc2, flush=True)
 sh("rm -rf %s" % EVD)
